@@ -394,8 +394,9 @@ func (e *env) configOptions() []app.SettingOption {
 }
 
 // Run executes one simulated run. It must be called from a test (synctest needs *testing.T).
-func Run(t *testing.T, bind *Binding, spec *RunSpec) *model.Obs {
-	obs := &model.Obs{ProgID: spec.Prog.ID, Seed: spec.Seed, Faults: spec.Faults, Sched: spec.Sched}
+func Run(t *testing.T, bind *Binding, spec *RunSpec) (obs *model.Obs) {
+	// (named result: the deferred recover below must not turn the result into nil)
+	obs = &model.Obs{ProgID: spec.Prog.ID, Seed: spec.Seed, Faults: spec.Faults, Sched: spec.Sched}
 	var ch *simrt.Chooser
 	if spec.Replay {
 		ch = simrt.NewReplay(spec.Picks)
